@@ -466,6 +466,8 @@ class FramesDomain(Domain):
         return NotImplemented
 
     def store_sub(self, interp, container, index_node, index_val, value, node):
+        if isinstance(value, ListOf) and not isinstance(container, Eye4):
+            value = value.elem  # buf[:] = [row for ...] / buf[:] = column of zip(*rows): every row of the buffer is one such element
         if isinstance(container, Eye4) or (isinstance(container, Poly)):
             txt = norm_src(index_node).replace(" ", "").strip("()")
             if isinstance(container, Eye4):
@@ -481,6 +483,10 @@ class FramesDomain(Domain):
             return value
         if container is TOP:
             return TOP
+        if isinstance(value, ListOf):
+            value = value.elem  # buf[:] = [row for ...]: every row of the buffer is one such element
+        elif isinstance(value, Tup) and value.items:
+            value = self.join_many(interp, list(value.items))
         return self.join(interp, container, value)
 
     def truth(self, interp, val):
